@@ -84,12 +84,12 @@ func (attrs Attributes) Satisfy(cts Constraints) (ok bool) {
 					continue
 				} else {
 					ok = false
-					break
+					return
 				}
 			} else { //at least 1 constraint not satisfiable, bailing out
 				log.WithField("constraint", constraint.Attribute).Warning("at least 1 constraint not satisfiable (cannot get attribute)")
 				ok = false
-				break
+				return
 			}
 		default:
 			log.WithField("constraint", constraint.Attribute).Warning("unsupported operator, skipping constraint")
